@@ -400,9 +400,28 @@ func trimStack(b []byte) string {
 // failure if it is a violation (i.e. not a listed known finding).
 func (p *Prop[C]) eval(t testing.TB, c C) *Failure {
 	p.record(t, c)
+	t0 := time.Now()
 	f := p.RunProtected(c)
 	if f == nil {
 		return nil
+	}
+	// A failing run that took seconds ran into one of the bounded waits ("must happen within N s").
+	// On a starved machine (load 80+ on 16 cores was observed) such a wait can expire although the
+	// library is right; a time budget that is hit means "inconclusive", never a violation. The
+	// case is a pure function of its value, so it is run again, up to two more times: a defect
+	// fails every time and is reported, a stall is counted as a discarded case with a note.
+	if time.Since(t0) > 1500*time.Millisecond && os.Getenv("VERIF_NO_CONFIRM") == "" {
+		for i := 0; i < 2; i++ {
+			time.Sleep(300 * time.Millisecond)
+			if f2 := p.RunProtected(c); f2 == nil {
+				r := p.recorder(t)
+				r.Discard()
+				r.Note("a failing run that took %.1fs (sig %s) did not fail when run again: counted as inconclusive (starved machine), not as a violation", time.Since(t0).Seconds(), f.Sig)
+				return nil
+			} else {
+				f = f2
+			}
+		}
 	}
 	if IsKnown(p.ID, f.Sig) {
 		p.recorder(t).mu.Lock()
